@@ -2488,6 +2488,41 @@ pub fn run_c10(ctx: &mut Ctx, _known: &Known) {
             ctx.violation("oracle", &format!("find({:?}) panicked", key), &ex, &key, true);
         }
     }
+    // indices at and beyond the ends of the 64-bit range, zero-padded, signed: an index that does not
+    // name an element is missing — never a wrap-around onto another element, never a panic
+    {
+        let idx = ["0", "1", "2", "00", "01", "+1", "-1", "-0", "1.0", "1e0", " 1", "1 ", "", "18446744073709551615", "18446744073709551616", "18446744073709551617",
+            "36893488147419103232", "36893488147419103233", "99999999999999999999", "4294967296", "4294967297", "9223372036854775808", "9223372036854775809",
+            "000000000000000000000000001", "340282366920938463463374607431768211456", "340282366920938463463374607431768211457", "１", "٣"];
+        let d: Yaml = serde_yaml::from_str("{a: [zero, one, two], b: {c: [x, y]}, n: 5}").unwrap();
+        for i in idx {
+            for key in [format!("a[{}]", i), format!("b.c[{}]", i), format!("zz[{}]", i), format!("n[{}]", i), format!("a[{}].k", i)] {
+                let line = format!("find {} {}", sx::doc_sx(&d), sx::enc(&key));
+                let ex = ctx.exchange(&line);
+                ctx.check_agree(&ex, &key);
+                if ex.imp.starts_with("PANIC") {
+                    ctx.violation("oracle", &format!("find({:?}) panicked", key), &ex, &key, true);
+                }
+                // a rule over the key: true only if the index names that element
+                let named: Option<usize> = i.trim_start_matches('+').parse::<usize>().ok().filter(|_| i.chars().all(|c| c.is_ascii_digit() || c == '+') && !i[1.min(i.len())..].contains('+'));
+                if key.starts_with("a[") && !key.ends_with(".k") {
+                    let want = named == Some(0);
+                    let c = case(vec![("A".into(), map1(&key, ys("zero"))), ("condition".into(), ys("A"))], vec![d.clone()], vec![0, 15]);
+                    let (ex2, parsed) = run_rule_case(ctx, &c, false);
+                    if let Some(p) = parsed {
+                        if p.load == "ok" {
+                            for m in &p.masks {
+                                if (m.res[0].0 == "T") != want {
+                                    ctx.violation("oracle", &format!("key `{}` on a: [zero, one, two] (mask {}): engine {}, the index names element 0: {}", key, m.mask, m.res[0].0, want), &ex2, &rule_yaml(&c), true);
+                                    break;
+                                }
+                            }
+                        }
+                    }
+                }
+            }
+        }
+    }
     // nested mappings vs dotted keys, and nested over arrays of objects
     let m = budget(ctx, 400, 8000);
     for i in 0..m {
@@ -3168,6 +3203,8 @@ fn c17_twins_and_long_lists(ctx: &mut Ctx) {
 
 pub fn run_c17(ctx: &mut Ctx, _known: &Known) {
     crate::suites3::rows_with_untabulated_entry(ctx, "C17");
+    crate::suites3::big_needle_sets(ctx, "C17");
+    crate::suites3::long_list_rotations(ctx, "C17");
     crate::suites3::same_field_triples(ctx, "C17", if ctx.tier == "thorough" { 1 } else { 3 });
     c17_fixed(ctx);
     c17_rows_one_field(ctx);
